@@ -672,6 +672,16 @@ def access_kind(f, n):
         if k == 'ImplicitCastExpr' and p.get('ck') == 'ArrayToPointerDecay':
             cur = p
             continue
+        if cur.get('k') == 'ImplicitCastExpr' and cur.get('ck') == 'ArrayToPointerDecay':
+            # the array's address is kept in a pointer through which it can be written
+            t = None
+            if k == 'VarDecl':
+                t = p.get('t') or ''
+            elif k == 'BinaryOperator' and p.get('op') == '=' and len(kids(p)) == 2 and kids(p)[1] is cur:
+                t = kids(p)[0].get('t') or ''
+            if t is not None and '*' in t and not t.split('*')[0].strip().startswith('const ') and \
+                    not t.split('*')[0].strip().endswith(' const'):
+                return 'addr'
         if k == 'CXXOperatorCallExpr' and p.get('op') == '[]':
             ks = kids(p)
             # children: [callee ref, object, index]
